@@ -120,7 +120,7 @@ def run_seq(seq, mode, res, via='file', maxcuts=0, bufsize=4096, faults=0):
             okp += 1
             if okp == 1 and res['counters'].get('wit', 0) < 3 and eng.check3() == 'sat':
                 res.count('wit')
-                res['witnesses'].append(case_of(eng.solver.model(), H, run, seq, mode, via, bufsize, "witness"))
+                res['witnesses'].append(case_of(eng.model(), H, run, seq, mode, via, bufsize, "witness"))
     res.absorb_engine(eng)
     res.count('sequences')
     return okp
@@ -149,7 +149,7 @@ def case_of(model, H, run, seq, mode, via, bufsize, why):
 
 def emit(eng, H, run, seq, mode, via, bufsize, res, why):
     if eng.check3() == 'sat':
-        res['cex'].append(case_of(eng.solver.model(), H, run, seq, mode, via, bufsize, why))
+        res['cex'].append(case_of(eng.model(), H, run, seq, mode, via, bufsize, why))
     else:
         res['harness_errors'].append(f"{seq}: no model for {why}")
 
